@@ -5,7 +5,9 @@ import os, subprocess
 V = os.path.dirname(os.path.dirname(os.path.abspath(__file__)))
 tpl = open(os.path.join(V, "tools", "design11.template.md")).read()
 table = subprocess.run(["python3", os.path.join(V, "tools", "seeded_table.py")], stdout=subprocess.PIPE, text=True, check=True).stdout
-body = tpl.replace("SEEDED_TABLE\n", table)
+import glob
+n = len(glob.glob(os.path.join(V, "seeded", "*", "meta.json")))
+body = tpl.replace("SEEDED_TABLE\n", table).replace("SEEDED_COUNT", str(n))
 p = os.path.join(V, "DESIGN.md")
 s = open(p).read()
 i = s.index("## 11. As built")
